@@ -1,62 +1,85 @@
 ----------------------------- MODULE GheObject -----------------------------
 (***************************************************************************)
 (* One GHE object (ground_heat_exchangers.py) as cells that survive        *)
-(* between calls: the height H, the g-function family, the time axis left  *)
-(* by the previous simulate, and what hp_eft describes.                    *)
+(* between calls: the height H, the g-function family and the              *)
+(* interpolation table cached inside the g-function OBJECT, the time axis  *)
+(* left by the previous simulate, and what hp_eft describes.               *)
 (* SimIsFunctionOfArgs: the axis a simulate uses is that of its own method *)
-(* and the height/g-function it sees are the current ones, whatever        *)
+(* and the height / g-function it sees are the current ones, whatever      *)
 (* happened before.                                                        *)
+(*                                                                         *)
+(* How the object was built is part of the state (variant):                *)
+(*   "plain"  - one stored curve, computed for the exchanger's own radius  *)
+(*   "radius" - one stored curve computed for ANOTHER borehole radius:     *)
+(*              every grab applies the radius correction to it             *)
+(*   "family" - a two-height family: grabs interpolate and cache a table   *)
 (***************************************************************************)
 EXTENDS Integers, Sequences, FiniteSets, TLC, Json
 
 CONSTANTS Heights,    \* heights SetH may store (inside the sizing window)
           MaxLen,
+          Variants,   \* subset of {"plain", "radius", "family"}
           Fixed       \* {"F6"} : simulate(HOURLY) rebuilds its time axis
 
-VARIABLES H, gf, times, hpSrc, hist, usedAxis
-vars == <<H, gf, times, hpSrc, hist, usedAxis>>
+VARIABLES variant, H, gf, table, times, hpSrc, hist, usedAxis, hourlySizes
+vars == <<variant, H, gf, table, times, hpSrc, hist, usedAxis, hourlySizes>>
 
-Init == H = "nominal" /\ gf = "single" /\ times = "empty" /\ hpSrc = <<>> /\ hist = <<>> /\ usedAxis = "none"
+Init == /\ variant \in Variants
+        /\ H = "nominal" /\ gf = (IF variant = "family" THEN "double" ELSE "single")
+        /\ table = "none"                 \* the interpolation table cached in the g-function object: none | the family it was built from
+        /\ times = "empty" /\ hpSrc = <<>> /\ hist = <<>> /\ usedAxis = "none" /\ hourlySizes = 0
 
 Bound == Len(hist) < MaxLen
+\* a grab with a multi-height family builds the table once and keeps it in the g-function object
+Grab == IF gf = "single" THEN table ELSE (IF table = "none" THEN gf ELSE table)
 
 SimHybrid == /\ Bound
-             /\ times' = "hybrid" /\ usedAxis' = "hybrid"
+             /\ times' = "hybrid" /\ usedAxis' = "hybrid" /\ table' = Grab
              /\ hpSrc' = <<"hybrid", H, gf, "hybrid">>
              /\ hist' = Append(hist, <<"sim_hybrid">>)
-             /\ UNCHANGED <<H, gf>>
+             /\ UNCHANGED <<variant, H, gf, hourlySizes>>
 
 \* unrepaired: "if len(self.times) == 0: self.times = arange(...)" - the axis of an earlier hybrid run is re-used
 SimHourly == /\ Bound
              /\ LET ax == IF "F6" \in Fixed \/ times = "empty" THEN "hourly" ELSE times IN
                 /\ times' = ax /\ usedAxis' = ax
                 /\ hpSrc' = <<"hourly", H, gf, ax>>
+             /\ table' = Grab
              /\ hist' = Append(hist, <<"sim_hourly">>)
-             /\ UNCHANGED <<H, gf>>
+             /\ UNCHANGED <<variant, H, gf, hourlySizes>>
 
-\* size(HYBRID): the sized height is a function of (gf) only (fixed initial guess and bounds); ends with a simulate there
+\* size(method): the sized height is a function of (gf, method) only (fixed initial guess and bounds); ends with a simulate there
 SizeHybrid == /\ Bound
-              /\ H' = <<"root", gf>> /\ times' = "hybrid" /\ usedAxis' = "hybrid"
+              /\ H' = <<"root", gf>> /\ times' = "hybrid" /\ usedAxis' = "hybrid" /\ table' = Grab
               /\ hpSrc' = <<"hybrid", <<"root", gf>>, gf, "hybrid">>
               /\ hist' = Append(hist, <<"size_hybrid">>)
-              /\ UNCHANGED gf
+              /\ UNCHANGED <<variant, gf, hourlySizes>>
+SizeHourly == /\ Bound /\ hourlySizes < 1          \* expensive on the real object: at most one per history
+              /\ H' = <<"root_hourly", gf>> /\ times' = "hourly" /\ usedAxis' = "hourly" /\ table' = Grab
+              /\ hpSrc' = <<"hourly", <<"root_hourly", gf>>, gf, "hourly">>
+              /\ hist' = Append(hist, <<"size_hourly">>) /\ hourlySizes' = hourlySizes + 1
+              /\ UNCHANGED <<variant, gf>>
 
-ComputeG == /\ Bound /\ gf' = "triple" /\ hist' = Append(hist, <<"compute_g">>)
-            /\ UNCHANGED <<H, times, hpSrc, usedAxis>>
+\* compute_g_functions stores a NEW g-function object (three heights): nothing cached in the old object survives
+ComputeG == /\ Bound /\ gf' = "triple" /\ table' = "none" /\ hist' = Append(hist, <<"compute_g">>)
+            /\ UNCHANGED <<variant, H, times, hpSrc, usedAxis, hourlySizes>>
 
 SetH(h) == /\ Bound /\ H' = h /\ hist' = Append(hist, <<"set_h", h>>)
-           /\ UNCHANGED <<gf, times, hpSrc, usedAxis>>
+           /\ UNCHANGED <<variant, gf, table, times, hpSrc, usedAxis, hourlySizes>>
 
-Next == SimHybrid \/ SimHourly \/ SizeHybrid \/ ComputeG \/ \E h \in Heights : SetH(h)
+Next == SimHybrid \/ SimHourly \/ SizeHybrid \/ SizeHourly \/ ComputeG \/ \E h \in Heights : SetH(h)
 Spec == Init /\ [][Next]_vars
 
-LastIsSim == Len(hist) > 0 /\ hist[Len(hist)][1] \in {"sim_hybrid", "sim_hourly", "size_hybrid"}
+Sims == {"sim_hybrid", "sim_hourly", "size_hybrid", "size_hourly"}
+LastIsSim == Len(hist) > 0 /\ hist[Len(hist)][1] \in Sims
 \* C13 : the axis used by a simulate is that of its own method
 SimIsFunctionOfArgs ==
-  LastIsSim => /\ (hist[Len(hist)][1] = "sim_hourly" => usedAxis = "hourly")
-               /\ (hist[Len(hist)][1] # "sim_hourly" => usedAxis = "hybrid")
+  LastIsSim => /\ (hist[Len(hist)][1] \in {"sim_hourly", "size_hourly"} => usedAxis = "hourly")
+               /\ (hist[Len(hist)][1] \in {"sim_hybrid", "size_hybrid"} => usedAxis = "hybrid")
+\* C13 : a cached interpolation table always belongs to the family the object holds now
+TableMatchesFamily == table \in {"none", gf}
 Known_F6 == LastIsSim /\ hist[Len(hist)][1] = "sim_hourly" /\ usedAxis = "hybrid"
 
-\* the replay: expected abstract cells after every history; results are compared with a fresh object's for (method, H, gf)
-Emit == LastIsSim => PrintT(ToJson([hist |-> hist, H |-> H, gf |-> gf, axis |-> usedAxis, hp |-> hpSrc]))
+\* the replay: expected abstract cells after every history; results are compared with a fresh object's for (variant, method, H, gf)
+Emit == LastIsSim => PrintT(ToJson([variant |-> variant, hist |-> hist, H |-> H, gf |-> gf, axis |-> usedAxis, hp |-> hpSrc]))
 =============================================================================
